@@ -243,7 +243,7 @@ def op_argv(op, sim_obj=None):
     k = op["op"]
     f = op.get("flags", {})
     if k == "run":
-        a = ["run", op["target"]]
+        a = (["--debug"] if f.get("debug") else []) + ["run", op["target"]]
         if f.get("again"):
             a.append("--again")
         if f.get("at_least") is not None:
@@ -429,7 +429,7 @@ def simple_script(r, task, kind, fail=None, files=True, out=False):
     steps = []
     if files and r.random() < 0.7:
         for i in range(r.randint(1, 2)):
-            steps.append(["file", r.choice(["res.csv", "data/out.bin", "m.txt", "d/e/f.json"]),
+            steps.append(["file", r.choice(["res.csv", "data/out.bin", "m.txt", "d/e/f.json", "old.task.3/copy.txt"]),
                           {"k": "bin", "n": r.choice([0, 5, 100, 3000]), "seed": r.randrange(1 << 30)}])
     if out:
         for i in range(r.randint(0, 3)):
